@@ -55,7 +55,7 @@ with ThreadPoolExecutor(max_workers=jobs) as ex:
     for sid, r in ex.map(one, ids):
         res[sid] = r
         print(sid, r["outcome"], r.get("assertions", "")[:3] if isinstance(r.get("assertions"), list) else "", flush=True)
-out = os.path.join(ROOT, "seeded", "RESULTS.json")
+out = os.path.join(ROOT, "seeded", "RESULTS.json" if vseed == "1" else f"RESULTS.seed{vseed}.json")
 prev = json.load(open(out)) if os.path.exists(out) and args else {}
 prev_runs = prev.get("results", {})
 prev_runs.update(res)
